@@ -424,7 +424,8 @@ def sorted_spec(d):
     order = list(getattr(d, "canonical_order", None) or ())
     head = [k for k in order if k in ks]
     keys = head + sorted(k for k in ks if k not in head)
-    return [keys, [[k, d[k]] for k in keys]]
+    items = dict.items(d)            # the stored pairs themselves (a broken mapping may not find its own keys)
+    return [keys, [[k, v] for k in keys for kk, v in items if kk == k]]
 
 
 def run_sequence(cls, clsname, ops, watch=False):
